@@ -5,6 +5,7 @@
 #![verifier::loop_isolation(false)]
 use vstd::prelude::*;
 use vstd::slice::SliceIndexSpec;
+use vstd::std_specs::iter::IteratorSpec;
 verus! {
 global size_of usize == 8;
 //@include prelude/std_contracts.rs
@@ -584,6 +585,17 @@ impl PredecessorTree {
     @*/
 
     // Index / IndexMut: out-of-range `index` is the documented panic of Vec indexing (outside the contract)
+    /*@fn impl=PredecessorTree trait=From name=from
+    ensures
+        r.pred@ == pred@,
+    @*/
+
+    /*@fn impl=PredecessorTree trait=IntoIterator name=into_iter subst=Self::IntoIter=>std::vec::IntoIter<Option<usize>>
+    ensures
+        r.obeys_prophetic_iter_laws(),
+        r.remaining() == self.pred@,
+    @*/
+
     /*@fn impl=PredecessorTree trait=Index name=index subst=Self::Output=>Option<usize>
     requires
         index < self.pred.len(),
